@@ -105,6 +105,8 @@ def run(ctx):
                 a, _ = ev.call_function('bip32.PubKeyNode.fingerprint', [pn])
                 b, _ = ev.call_function('bip32.PubKeyNode.fingerprint', [sn])
                 same_term(ob, a, b, 'fingerprints agree', fa.where)
+    from .C06 import check_node_versions
+    check_node_versions(ctx, 'C14.NODEVERSION')
     # re-use the dispatch / projection / guard obligations that this property shares
     from . import C07, C02
     C07.check_dispatch(ctx, 'C14.DISPATCH')
